@@ -31,7 +31,10 @@ NumOk(cls, numeral, got, want) ==
 Classes(r) == [i \in DOMAIN r.numerals |-> ClassOfText(r.numerals[i])]
 
 Why(r) ==
-  LET o == r.out p == JsonParse(r.text) cls == Classes(r) IN
+  LET o == r.out
+      \* texts of several thousand characters are judged by the print / re-parse / bridge relations alone (dom = FALSE below)
+      p == IF Len(r.text) > 1500 THEN [ok |-> TRUE, dom |-> FALSE, v |-> JNull] ELSE JsonParse(r.text)
+      cls == Classes(r) IN
   IF "printed" \notin DOMAIN o THEN (IF "parse_err" \in DOMAIN o /\ (~p.ok \/ \E i \in DOMAIN cls : cls[i] = "near") THEN "none" ELSE "failed")
   ELSE IF ~p.ok THEN "accepted"
   ELSE IF r.kind = "num" /\ Len(o.nums) # Len(cls) THEN "numcount"
@@ -40,12 +43,13 @@ Why(r) ==
   ELSE IF r.kind = "num" /\ Len(cls) = 1 /\ r.text = r.numerals[1] /\ cls[1] = "int" /\ o.printed # r.text THEN "printed"
   ELSE IF p.dom /\ o.value # p.v THEN "value"
   ELSE IF p.dom /\ LET q == JsonParse(o.printed) IN ~q.ok \/ (q.dom /\ q.v # p.v) THEN "printed"
-  ELSE IF ~o.reparse_equal THEN "reparse"
+  ELSE IF ~o.reparse_equal \/ ~o.reparse_text_equal THEN "reparse"
+  ELSE IF ~o.print_routes_agree THEN "printed"
   ELSE IF ~o.bridge_to \/ ~o.bridge_from \/ ~o.bridge_deser THEN "bridge"
   ELSE "none"
 
 Allowed(r) == Why(r) = "none"
-Expected(r) == LET p == JsonParse(r.text) IN [why |-> Why(r), classes |-> Classes(r), value |-> IF p.ok /\ p.dom THEN p.v ELSE [t |-> "outside"]]
+Expected(r) == LET p == IF Len(r.text) > 1500 THEN [ok |-> TRUE, dom |-> FALSE] ELSE JsonParse(r.text) IN [why |-> Why(r), classes |-> Classes(r), value |-> IF p.ok /\ p.dom THEN p.v ELSE [t |-> "outside"]]
 (* the one recorded deviation: the JSON layer re-spells the integer numeral -0 as -0.0 *)
 Explains(r) ==
   IF "DEV_NEG_ZERO_RESPELLED" \in KnownDevs /\ Why(r) = "negzero" /\ "printed" \in DOMAIN r.out
